@@ -293,6 +293,13 @@ func (ctx *parseContext) readNodes() ([]Node, error) {
 		}
 		requireNewLine = true
 
+		// Macro and snippet declarations are only allowed at top-level. This
+		// is decided here, before the edge case below takes the closing brace
+		// of the enclosing block into account: in "a { $(x) = 1 }" the
+		// declaration is inside of the block even though ctx.nesting is
+		// already back to 0 when the checks below run.
+		topLevel := ctx.nesting == 0
+
 		shouldStop := false
 
 		// name arg0 arg1 {
@@ -310,7 +317,7 @@ func (ctx *parseContext) readNodes() ([]Node, error) {
 		}
 
 		if node.Macro {
-			if ctx.nesting != 0 {
+			if !topLevel {
 				return res, ctx.Err("macro declarations are only allowed at top-level")
 			}
 
@@ -325,7 +332,7 @@ func (ctx *parseContext) readNodes() ([]Node, error) {
 			continue
 		}
 		if node.Snippet {
-			if ctx.nesting != 0 {
+			if !topLevel {
 				return res, ctx.Err("snippet declarations are only allowed at top-level")
 			}
 			if len(node.Args) != 0 {
